@@ -157,7 +157,7 @@ impl Peer {
 }
 
 pub fn client(addr: &str) -> Result<kanidm_client::KanidmClient, String> {
-    KanidmClientBuilder::new().address(addr.to_string()).enable_native_ca_roots(false).no_proxy().connect_timeout(2).request_timeout(2).build().map_err(|e| format!("client: {e:?}"))
+    KanidmClientBuilder::new().address(addr.to_string()).enable_native_ca_roots(false).no_proxy().connect_timeout(15).request_timeout(15).build().map_err(|e| format!("client: {e:?}"))
 }
 
 pub struct Hsm {
